@@ -51,7 +51,7 @@ func ZZC16(n int) {
 	prefix := ""
 	if cfg == 2 || cfg == 3 {
 		g := NewGroup[*hnd](zzCallBoom, &hnd{id: id404}, zzB405, zzBOpt, opts...)
-		r = g.New("r", NewPathVersion("", "v1"))
+		r = g.New("r", NewPathVersion("", "v1"), WithURLDomain("http://x")) // an extra per-router option
 		srv, prefix = g, "/v1"
 	} else {
 		r = NewRouter[*hnd]("r", zzCallBoom, &hnd{id: id404}, zzB405, zzBOpt, opts...)
